@@ -42,8 +42,8 @@ ASSUMPTIONS = [
   'quirk kept: the same pair connected twice (either orientation) is merged by the adjacency sets and is not a loop (PV.C09.dup_is_no_loop)',
   'multi-defect designs are compared on accepted/rejected only',
 ]
-RULE = ('legal designs (C08 generator); exactly one injected defect out of 43 kinds (two blocks / block vs net / field vs parent / overlapping slices / '
-        'slice vs whole / two constants / constant vs block / two blocks reaching one signal-writing @s.func helper (directly or through different intermediate helpers) / helper write vs direct write / helper write vs net / call cycle between helpers / second driver on a deep part of a struct that one block writes whole and overrides two levels down / headless net / self connection / cycle of 3+ / each port rule Type 1-9 and loop-back / '
+RULE = ('legal designs (C08 generator); exactly one injected defect out of 46 kinds (two blocks / block vs net / field vs parent / overlapping slices / '
+        'slice vs whole / two constants / constant vs block / two blocks reaching one signal-writing @s.func helper (directly or through different intermediate helpers) / helper write vs direct write / helper write vs net / call cycle between helpers / second driver on a deep part of a struct that one block writes whole and overrides two levels down / headless net / self connection / cycle of 3+ / each port rule Type 1-9 and loop-back, Types 5/7/9 also with a constant (int or Bits, either argument order, //= or connect) as the driver / '
         'wrong operator (=, @=, <<=, for-loop target) in update and update_ff, also as a second write to an object the same block already wrote legally, in either statement order / <<= on slice or field) at a random hierarchy position, plus the duplicated-connection quirk; 2-3 defects; '
         'exhaustive tables; each under K statement orders with side flips; case = (design, order); non-trivial = design has a defect or at least two '
         'user nets; distinct = canonical JSON')
@@ -203,7 +203,7 @@ def run(ck):
     if n < 2: continue
     pend.add(d, variants_of(d, rng, 2 if quick else 3), 'multi-defect', exact=False)
   # ---- exhaustive small tables
-  tables = [('table-port-nets', g.table_port_nets(rng)), ('table-port-upblk', g.table_port_upblk(rng)), ('table-ops', g.table_ops(rng))]
+  tables = [('table-port-nets', g.table_port_nets(rng) + g.table_const_ports(rng)), ('table-port-upblk', g.table_port_upblk(rng)), ('table-ops', g.table_ops(rng))]
   pairs = g.table_write_pairs(rng, ('b', 4)) + g.table_write_pairs(rng, ('s', 'PB'))
   if quick: pairs = rng.sample(pairs, 120)
   tables.append(('table-write-pairs', pairs))
@@ -212,7 +212,7 @@ def run(ck):
       pend.add(d, variants_of(d, rng, 2), name)
   pend.flush()
   ck.extra_cov['exhaustive'] = not quick
-  ck.extra_cov['exhaustive_tables'] = ('port directions over nets: 11 host relations x 3 x 3 kinds (+ loop-back at the parent); ports in update blocks: 5 host pairs x 3 kinds x '
+  ck.extra_cov['exhaustive_tables'] = ('port directions over nets: 11 host relations x 3 x 3 kinds (+ loop-back at the parent), and a constant driver: 6 (connecting component, component of the tied signal) pairs x 3 kinds x whole/part; ports in update blocks: 5 host pairs x 3 kinds x '
     'read/write; operators: 2 block kinds x 4 operators (=, @=, <<=, for target) x whole/slice/field, and every pair (first write, second write to the same object) of them; pairs of written objects of one Bits4 and one PB signal x '
     '{two blocks, one block, block and net}' + (' (write pairs sampled: 120)' if quick else ' (all)'))
 
